@@ -483,7 +483,8 @@ class C11(Check):
                 # the send stamp is taken when request() is entered: not after the first byte on the wire,
                 # and for planned calls not before the call
                 hi = x["x"]["t0"] + 1e-4
-                lo = (x["call"]["t0"] if x["call"] is not None else x["x"]["t0"] - 30.0) - 1e-4
+                # (a foreign task may have waited arbitrarily long for the client before its bytes hit the wire)
+                lo = (x["call"]["t0"] if x["call"] is not None else -1e9) - 1e-4
                 return x["req"] == row_reqs[i] and lo <= vt <= hi
 
             if j < len(mand) and fits(mand[j]):
@@ -521,7 +522,7 @@ class C11(Check):
                     if k_ in used_e or x_["req"] != row_reqs[i_]:
                         continue
                     hi_ = x_["x"]["t0"] + 1e-4
-                    lo_ = (x_["call"]["t0"] if x_["call"] is not None else x_["x"]["t0"] - 30.0) - 1e-4
+                    lo_ = (x_["call"]["t0"] if x_["call"] is not None else -1e9) - 1e-4
                     if not lo_ <= vt_ <= hi_:
                         continue
                     d_ = abs(x_["x"]["t0"] - vt_)
